@@ -101,8 +101,13 @@ class FinishedPdu(AbstractFileDirectiveBase):
 
     @condition_code.setter
     def condition_code(self, condition_code: ConditionCode):
+        old = self._params.condition_code
         self._params.condition_code = condition_code
-        self._calculate_directive_field_len()
+        try:
+            self._calculate_directive_field_len()
+        except ValueError:
+            self._params.condition_code = old
+            raise
 
     @property
     def delivery_code(self) -> DeliveryCode:
@@ -142,11 +147,16 @@ class FinishedPdu(AbstractFileDirectiveBase):
         :raises ValueError: TLV type is not a filestore response
         :return:
         """
+        old = self._params.file_store_responses
         if file_store_responses is None:
             self._params.file_store_responses = []
         else:
             self._params.file_store_responses = file_store_responses
-        self._calculate_directive_field_len()
+        try:
+            self._calculate_directive_field_len()
+        except ValueError:
+            self._params.file_store_responses = old
+            raise
 
     @property
     def file_store_responses_len(self):
@@ -167,8 +177,13 @@ class FinishedPdu(AbstractFileDirectiveBase):
         """Setter function for the fault location.
         :raises ValueError: Type ID is not entity ID (0x06)
         """
+        old = self._params.fault_location
         self._params.fault_location = fault_location
-        self._calculate_directive_field_len()
+        try:
+            self._calculate_directive_field_len()
+        except ValueError:
+            self._params.fault_location = old
+            raise
 
     def _calculate_directive_field_len(self):
         base_len = 1
